@@ -203,6 +203,34 @@ func genC14(t *rapid.T) *C14Case {
 			s.Mul = c.BadMul
 		}
 	}
+	// some of the commands with moves() sit in a statement poryswitch (matching case, fallback, colon or brace
+	// form). Only commands without a list poryswitch of their own: a poryswitch without a matching case inside an
+	// unselected case is C12's known finding
+	for i, s := range sc.Body.Stmts {
+		if s.K != "cmd" || rapid.IntRange(0, 3).Draw(t, "inps") != 0 {
+			continue
+		}
+		plain := true
+		for _, st := range s.Cmd.Args[1].Moves {
+			if st.PS != nil {
+				plain = false
+			}
+		}
+		if !plain {
+			continue
+		}
+		var osteps []*Step
+		for k, n := 0, rapid.IntRange(0, 3).Draw(t, "inpsn"); k < n; k++ {
+			osteps = append(osteps, &Step{Name: rapid.SampledFrom(stepPool).Draw(t, "inpsstep"), Mul: rapid.SampledFrom([]string{"", "", "2", "3"}).Draw(t, "inpsmul")})
+		}
+		other := sCmd(&Cmd{Name: s.Cmd.Name + "x", Args: []*Arg{{Toks: []string{"OBJ"}}, {IsMv: true, Moves: osteps}}})
+		key := rapid.SampledFrom([]string{"A", "B", "zz", "1"}).Draw(t, "inpskey")
+		cases := []*PSStmtCase{{Key: key, Brace: rapid.Bool().Draw(t, "inpsbrace"), Body: &Block{Stmts: []*Stmt{s}}}, {Key: "_", Brace: rapid.Bool().Draw(t, "inpsbrace2"), Body: &Block{Stmts: []*Stmt{other}}}}
+		if rapid.Bool().Draw(t, "inpsorder") {
+			cases[0], cases[1] = cases[1], cases[0]
+		}
+		sc.Body.Stmts[i] = &Stmt{K: "ps", PS: &PSStmt{Var: "V", Cases: cases}}
+	}
 	return c
 }
 
